@@ -876,6 +876,13 @@ func (n *FuncType) String() string {
 		if i > 0 {
 			s += ", "
 		}
+		if n.IsVariadic && i == len(n.Parameters)-1 && param.Type != nil {
+			if param.Ident != nil {
+				s += param.Ident.Name + " "
+			}
+			s += "..." + param.Type.String()
+			continue
+		}
 		s += param.String()
 	}
 	s += ")"
